@@ -15,6 +15,7 @@ Definition operand (s : mstate) (p : param) : option value :=
   | PLoopVar k => Some (get_loopvar (m_frames s) k)
   | PStr x => Some (get_var (m_globals s) (m_frames s) x)
   | PMode m => Some (VMode m)
+  | POperand OD_NULL => Some (VOperand OD_NULL)
   | PReg rg => if register_eqb rg R_PC then None else rf_get (m_regs s) rg
   | _ => None
   end.
@@ -31,6 +32,7 @@ Proof.
     rewrite (get_reg_not_pc s rg Er). unfold rg_vm. rewrite Ho. cbn [bind lift]. destruct a; try reflexivity; contradiction.
   - injection Ho as <-. cbn [push_of Machine.exec i_op i_p0 I1 param_value read_name bind lift].
     destruct (get_loopvar (m_frames s) kk); try reflexivity; contradiction.
+  - destruct od; try discriminate. injection Ho as <-. reflexivity.
   - injection Ho as <-. reflexivity.
 Qed.
 
@@ -50,7 +52,7 @@ Definition with_lv (s : mstate) (kk : loopvar) (x : value) (n : Z) : mstate :=
 
 Lemma sim_with_lv ss s kk x n : sim ss s -> sim ss (with_lv s kk x n).
 Proof.
-  intros H. destruct H as [Hr Hf Hg Hv Hst Hw Hu]. constructor; cbn [with_lv m_regs m_globals m_frames m_world m_unnamed]; try assumption;
+  intros H. destruct H as [Hr Hf Hg Hv Hst Hw Hu Hdf]. constructor; cbn [with_lv m_regs m_globals m_frames m_world m_unnamed]; try assumption;
   destruct (m_frames s) as [|[p b r|lv d] t]; assumption.
 Qed.
 
